@@ -11,4 +11,7 @@ Tol_voxel_fine       == -1500   \* voxel volume vs analytic at spacing r/20: 3e-
 Tol_overlap          == -12000  \* largest_overlap vs rsum - sqrt(d2)
 Tol_prior_integral   == -8000   \* quadrature of prob over the support vs 1 (measured <= 1e-10)
 Tol_view_commute     == -12000  \* value at a position: grid vs points/crop/subset (measured 0.0 .. 2e-16)
+Tol_tm_sphere        == -5000   \* Tmatrix(sphere) vs far-field Mie, fields and S (measured <= 1.2e-6)
+Tol_tm_identity      == -10000  \* same particle, different angle representation (measured <= 1e-15)
+Tol_tm_symmetry      == -5500   \* mirror / rotation covariance of tilted particles (measured <= 3e-7)
 =============================================================================
